@@ -20,6 +20,7 @@ import (
 	lendtypes "github.com/comdex-official/comdex/x/lend/types"
 	liquidationtypes "github.com/comdex-official/comdex/x/liquidation/types"
 	liquidationsv2types "github.com/comdex-official/comdex/x/liquidationsV2/types"
+	lockertypes "github.com/comdex-official/comdex/x/locker/types"
 	rewardstypes "github.com/comdex-official/comdex/x/rewards/types"
 	tokenminttypes "github.com/comdex-official/comdex/x/tokenmint/types"
 	vaulttypes "github.com/comdex-official/comdex/x/vault/types"
@@ -42,6 +43,7 @@ import (
 // Everything is reached through real messages and the modules' own hooks; prices, the net fees of the
 // collector (thresholds of the surplus / debt auctions) and governance parameters are inputs.
 type c12xWorld struct {
+	app   *chain.App
 	Base  *c12World   // view of owner 0 at the plain fixture state
 	Views []*c12World // one view per owner, Ctx = X
 	Ctx   sdk.Context
@@ -72,7 +74,7 @@ func c12xFundModule(t *testing.T, a *chain.App, ctx sdk.Context, module string, 
 func c12xSetup(t *testing.T, a *chain.App, base sdk.Context) *c12xWorld {
 	views0 := c12SetupN(t, a, base, 3)
 	w := views0[0]
-	x := &c12xWorld{Base: w, Keeper: addrN(35), Help: []sdk.AccAddress{addrN(31), addrN(32), addrN(33)}}
+	x := &c12xWorld{app: a, Base: w, Keeper: addrN(35), Help: []sdk.AccAddress{addrN(31), addrN(32), addrN(33)}}
 	ctx, _ := w.Ctx.CacheContext()
 	harbor, commodo := w.VaultApp, w.LendApp
 	rich := sdk.NewCoins(c12Coin(c12DenomCMDX, 1_000_000_000_000), c12Coin(c12DenomCMST, 1_000_000_000_000), c12Coin(c12DenomATOM, 1_000_000_000_000),
@@ -95,6 +97,10 @@ func c12xSetup(t *testing.T, a *chain.App, base sdk.Context) *c12xWorld {
 	if err := a.EsmKeeper.AddESMTriggerParamsForApp(ctx, &bindings.MsgAddESMTriggerParams{AppID: harbor, TargetValue: c12Coin(c12DenomHARBOR, 1_000_000_000),
 		CoolOffPeriod: 3600, AssetID: []uint64{w.CMST, w.USDC}, Rates: []uint64{1000000, 1000000}}); err != nil {
 		t.Fatalf("c12x AddESMTriggerParamsForApp: %v", err)
+	}
+	// a second locker asset without internal rewards (the custom message that whitelists locker rewards has work to do)
+	if _, err := a.LockerKeeper.AddWhiteListedAsset(ctx, &lockertypes.MsgAddWhiteListedAssetRequest{From: w.LP.String(), AppId: harbor, AssetId: w.ATOM}); err != nil {
+		t.Fatalf("c12x AddWhiteListedAsset: %v", err)
 	}
 	// reserve funds of both apps (the generation-2 bid path draws on them when the collateral does not cover the debt;
 	// the external-keeper liquidation demands them)
